@@ -12,6 +12,13 @@ Res(n) == IF n.ok THEN ToHex(Ser(n)) ELSE "refused"
 Expected(e) ==
     CASE e.op = "master" -> Res(Master(FromHex(e.seed), FromHex(e.version)))
       [] e.op = "derive" -> Res(Derive(NodeOf(FromHex(e.xkey)), [j \in 1..Len(e.path) |-> N(e.path[j])]))
+      [] e.op = "derive_forced" ->      \* one step with a dictated HMAC output
+            LET node == NodeOf(FromHex(e.xkey)) IN
+            Res(IF IsPrv(node) THEN CKDprivWith(node, N(e.index), FromHex(e.I)) ELSE CKDpubWith(node, N(e.index), FromHex(e.I)))
+      [] e.op = "slip132" ->            \* derive, then the SLIP132 version of the purpose, network and key kind
+            LET node == NodeOf(FromHex(e.xkey))
+                d == Derive(node, [j \in 1..Len(e.path) |-> N(e.path[j])])
+            IN Res(IF d.ok THEN [d EXCEPT !.version = Slip132(e.kind, node.version \in TestVersions, IsPrv(node))] ELSE d)
       [] e.op = "neuter" -> Res(Neuter(NodeOf(FromHex(e.xkey)), FromHex(e.pubversion)))
       [] e.op = "fingerprint" -> ToHex(Fingerprint(NodeOf(FromHex(e.xkey))))
       [] e.op = "hmac512" -> ToHex(HMAC(HF("sha512"), FromHex(e.key), FromHex(e.msg)))
